@@ -1674,9 +1674,6 @@ namespace CaddyModel.C15
 section
 variable {α : Type}
 
-/-- the response has been fixed as `101 Switching Protocols` -/
-def Final101 (st : St α) : Prop := ∃ h, st.sent = some (101, h)
-
 theorem inv_rwWriteHeader_101_committed {cfg : Cfg α} {name : Bytes} {st : St α}
     (h : Inv cfg name st) (hw : st.wroteHeader = true) : Inv cfg name (rwWriteHeader st 101) := by
   have e : rwWriteHeader st 101 = dsWriteHeader { st with statusCode := 101 } 101 := by
